@@ -336,6 +336,10 @@ func (r *relay) updateMaxFrameSize(v uint32) {
 // See: https://tools.ietf.org/html/rfc7540#section-6.9.2
 //
 // This is called by `peer`, so requires a thread-safe implementation.
+func (r *relay) currentMaxFrameSize() uint32 {
+	return atomic.LoadUint32(&r.maxFrameSize)
+}
+
 func (r *relay) updateInitialWindowSize(v uint32) {
 	r.flowMu.Lock()
 	delta := int(v) - int(r.initialWindowSize)
@@ -388,7 +392,7 @@ func (r *relay) data(id uint32, data []byte, streamEnded bool) error {
 		nextPayload := make([]byte, nextPayloadLength)
 		copy(nextPayload, data)
 		data = data[nextPayloadLength:]
-		f := &queuedDataFrame{id, streamEnded && len(data) == 0, nextPayload}
+		f := &queuedDataFrame{id, streamEnded && len(data) == 0, nextPayload, r.currentMaxFrameSize}
 
 		r.flowMu.Lock()
 		w.enqueue(f)
